@@ -262,6 +262,13 @@ def ldap_schema(ctx, report):
     # every parsed message would carry the edits made to earlier messages (rule shared with C13.R5)
     from .c13 import shared_containers
     shared_containers(ctx, report, RULE='C09.R9', only=lambda k: k.module.name in MODULES)
+    # a flag word (capabilities, status) decodes to the same members whatever was decoded before: no memo at module or class level
+    # between the wire word and the flag set (rules shared with C19.R5 / R10)
+    from .c19 import module_level_state, stateless_parsing
+    module_level_state(ctx, report, RULE='C09.R13', title='decoding a field does not depend on fields decoded earlier: no function changes a module level container')
+    stateless_parsing(ctx, report, RULE='C09.R14', allow_memo=True, modules=('cryptoparser/common/parse.py', 'cryptoparser/tls/mysql.py', 'cryptoparser/tls/rdp.py',
+                                                                          'cryptoparser/tls/openvpn.py', 'cryptoparser/tls/ldap.py', 'cryptoparser/tls/postgresql.py'),
+                      title='no function between the wire bytes of an opportunistic-TLS message and the object writes class level state')
     from .c11 import numeric_widths_shared
     numeric_widths_shared(ctx, report, 'C09.R10', 'fixed width integers (MySQL int<3> lengths, TPKT / COTP lengths): every width and byte order is written '
                           'exactly, a value that does not fit is refused, never truncated')
